@@ -485,7 +485,7 @@ class Libs:
         def f(*a, **k):
             if any(isinstance(x, DataT) for x in a):
                 from . import nonlin
-                return nonlin.pointwise(name, *a)
+                return nonlin.pointwise(name, *a, **k)
             raise AnalysisError('unknown-primitive', name)
         return f
 
